@@ -26,13 +26,30 @@ RULE = ('cases: seeded histories of 5-20 adds/removes of named cell components o
         'removal with other components present, >=2 cells; distinct by (shape, op trace).')
 ASSUMPTIONS = ['removing np.copy is observationally invisible under pandas copy-on-write (stated reach limit)',
                'generators are pure functions of the coordinates', 'F4 (LookupGenerator on low-dimensional worlds) is a known finding']
-FLOORS = {'quick': {'src_constant_that_is_a_collection': 47, 'operations_after_which_nobody_looked': 427, 'src_subclassed_lookup_with_full_table': 76, 'cases_in_mode_warnings': 42, 'deep_copies_of_the_world_checked': 179, 'sources_that_add_another_component_while_running': 31, 'sources_failing_part_way': 36, 're_added_from_array': 26, 'column_comparisons': 8000, 'src_callable': 238, 'src_list': 231, 'src_numpy': 235, 'src_constant': 236,
+FLOORS = {'quick': {'src_callable_returning_equal_but_distinct_records': 31, 'src_constant_that_is_a_collection': 47, 'operations_after_which_nobody_looked': 427, 'src_subclassed_lookup_with_full_table': 76, 'cases_in_mode_warnings': 42, 'deep_copies_of_the_world_checked': 179, 'sources_that_add_another_component_while_running': 31, 'sources_failing_part_way': 36, 're_added_from_array': 26, 'column_comparisons': 8000, 'src_callable': 238, 'src_list': 231, 'src_numpy': 235, 'src_constant': 236,
                     'src_lookup3': 300, 'src_subclassed': 200, 'lookup_table_changed_before_use': 100, 'source_mutated_before_first_read': 200, 'src_lookup_lowdim': 135, 'removals': 379, 'in_place_updates': 179, 're_added_existing_name': 91, 'rejected_unknown_removal': 300, 'source_mutations': 550,
                     'get_cell_rows': 3000, 'big_worlds': 2, 'many_component_worlds': 2, 'shapes_line': 50, 'shapes_grid': 46, 'shapes_3d': 50, 'shapes_degenerate': 50,
-                    'generator_calls_checked': 1762, 'reach:Environments.DiscreteWorld.add_cell_component': 1900,
+                    'generator_calls_checked': 1378, 'reach:Environments.DiscreteWorld.add_cell_component': 1900,
                     'reach:Environments.LookupGenerator.__call__': 1000},
           'thorough': {'column_comparisons': 400000}}
 EXHAUSTIVE = {}
+
+
+class Rec:
+    """A per-cell record that compares equal to every record of the same kind (land-use class, say) while carrying state of its own."""
+    __slots__ = ('kind', 'serial')
+
+    def __init__(self, kind, serial):
+        self.kind, self.serial = kind, serial
+
+    def __eq__(self, other):
+        return isinstance(other, Rec) and other.kind == self.kind
+
+    def __hash__(self):
+        return hash(self.kind)
+
+    def __repr__(self):
+        return f'Rec(kind={self.kind}, serial={self.serial})'
 
 
 def same(a, b):
@@ -129,7 +146,7 @@ def case_history(ctx, case):
         return p[0] + 10 * p[1] + 100 * p[2] + 1000 * salt
 
     names = ['c1', 'c10', 'c2', 'food', 'food_max', 'rain', 'rainfall', 'slope', 'p', 'o', 's', 'po', 'x pos',
-             'c[12]', 'c*', 'f??d', 'rain*', 'c$$', 'caf\u00e9', 'cafe\u0301', '\u00b5', '\u03bc']   # overlapping names on purpose; names that look like patterns; unnormalised unicode
+             'c[12]', 'c*', 'f??d', 'rain*', 'c$$', 'depth', 'width', 'height', 'id', 'model', 'caf\u00e9', 'cafe\u0301', '\u00b5', '\u03bc']   # overlapping names on purpose; names that look like patterns; unnormalised unicode
     for step in range(rng.randint(5, 20)):
         x = rng.random()
         free = [n for n in names if n not in shadow]
@@ -139,7 +156,19 @@ def case_history(ctx, case):
             src = rng.choice(['callable', 'list', 'numpy', 'constant', 'lookup3', 'lookup_lowdim' if lowdim_ok else 'lookup3', 'subclassed'])
             exp = None
             mutate_first = rng.random() < 0.5        # change the caller's object BEFORE anything reads the cell table again
-            if src == 'callable':
+            if src == 'callable' and rng.random() < 0.2:
+                # a generator whose values are records that compare EQUAL within a kind but are distinct objects with per-cell state:
+                # every cell holds the record generated for ITS coordinates
+                def gen_rec(pos, cells, salt=salt):
+                    return Rec((pos[0] + pos[1] + pos[2]) % 2, code(pos, salt))
+                env.add_cell_component(name, gen_rec)
+                exp = [Rec((p_[0] + p_[1] + p_[2]) % 2, code(p_, salt)) for p_ in table]
+                held = [getattr(v_, 'serial', None) for v_ in list(env.cells[name])]
+                ctx.count('src_callable_returning_equal_but_distinct_records')
+                if held != [r_.serial for r_ in exp]:
+                    raise CaseViolation(f'cell component {name!r} from a generator of per-cell records: a cell holds the record generated for another cell',
+                                        shape=ext, expected_serials=[r_.serial for r_ in exp][:12], held_serials=held[:12])
+            elif src == 'callable':
                 calls = []
 
                 def gen(pos, cells, calls=calls, salt=salt):
